@@ -42,7 +42,9 @@ def run_stream(tag, kind, profile, seed, hists, size, extra, workdir):
         subprocess.run([C.DRIVE, "snap-dump", stream, snapdir], env=env, stdout=subprocess.DEVNULL, stderr=subprocess.DEVNULL)
     penv = dict(env)
     penv["BOURSE_SO"] = SO
-    q = subprocess.run(["python3-vt", PYDRIVE, stream, "--seed", str(seed), "--snapdir", snapdir], stdout=subprocess.PIPE,
+    # one shard also runs the crowded-level probe (more than 2^16 resting orders at one price)
+    crowd = ["--crowd"] if profile == "npy" and tag.endswith("_0") else []
+    q = subprocess.run(["python3-vt", PYDRIVE, stream, "--seed", str(seed), "--snapdir", snapdir] + crowd, stdout=subprocess.PIPE,
                        stderr=subprocess.PIPE, env=penv, text=True)
     finds, stats, done = book.parse_driver(q.stdout, tag)
     extra_f = []
